@@ -7,6 +7,7 @@ LITS = [0, 0, 0, 1, 1, 2, 3, 5, 31, 32, 32, 33, 64, 96, 255, 256, 2**128, HALF -
 VARS = ["x", "y", "calldatasize", "callvalue"]
 UNOPS = ["iszero", "iszero", "not", "ceil32", "mload", "sload", "calldataload"]
 BINOPS = BOPS_ARITH + ["shl", "shr", "sar"]
+SYMS = ["s1", "s2", "s3", "s4", "s5", "s6", "s7", "s8", "s9", "s10", "s11", "s12"]
 
 
 def gen_val(rnd, d):
@@ -25,7 +26,10 @@ def gen_val(rnd, d):
     if r < 0.85:
         return ["if", gen_val(rnd, d - 1), gen_val(rnd, d - 1), gen_val(rnd, d - 1)]
     if r < 0.93:
-        return ["seq"] + [gen_stmt(rnd, d - 1) for _ in range(rnd.randrange(0, 3))] + [gen_val(rnd, d - 1)]
+        pre = [gen_stmt(rnd, d - 1) for _ in range(rnd.randrange(0, 3))]
+        if rnd.random() < 0.25:
+            pre.append(["unique_symbol", rnd.choice(SYMS)])
+        return ["seq"] + pre + [gen_val(rnd, d - 1)]
     if r < 0.97:
         return ["with", rnd.choice(["x", "y", "z"]), gen_val(rnd, d - 1), gen_val(rnd, d - 1)]
     return "msize"
@@ -60,7 +64,8 @@ def gen_run(rnd):
 def gen_stmt(rnd, d):
     r = rnd.random()
     if d <= 0 or r < 0.10:
-        return rnd.choice(["pass", ["seq"], ["mstore", rnd.choice([0, 32, 64]), rnd.choice(LITS)]])
+        return rnd.choice(["pass", ["seq"], ["mstore", rnd.choice([0, 32, 64]), rnd.choice(LITS)],
+                           ["unique_symbol", rnd.choice(SYMS)]])
     if r < 0.30:
         return ["mstore", gen_val(rnd, d - 1), gen_val(rnd, d - 1)]
     if r < 0.38:
@@ -115,7 +120,7 @@ def real_optimize(ir_list, evm_version=None):
     """-> canonical string of optimizer.optimize(IRnode.from_list(ir_list)), or STATIC / ASSERT / EXC:<name>"""
     from vyper.codegen.ir_node import IRnode
     from vyper.compiler.settings import Settings, anchor_settings
-    from vyper.exceptions import StaticAssertionException
+    from vyper.exceptions import CompilerPanic, StaticAssertionException
     from vyper.ir import optimizer
 
     with anchor_settings(Settings(evm_version=evm_version)):
@@ -128,5 +133,7 @@ def real_optimize(ir_list, evm_version=None):
             return "ASSERT"
         except RecursionError:
             return "EXC:RecursionError"
+        except CompilerPanic:
+            return "PANIC"
         except Exception as e:  # noqa
             return "EXC:" + type(e).__name__
